@@ -75,3 +75,7 @@ claim('C17', 'CBMC on the real load_binary staleness gate with a stub file syste
       'Solver-decided: the loader starts reading the program image only if the source and every listed include are not newer than the binary, the magic / driver id / configuration id match and the stored name matches; otherwise it returns out-of-date.',
       'Only the gate of C17 is covered: inherited-program staleness, relocation and table re-sorting (locate_in, patch_in, sort_function_table) and equality with a fresh compile are not.',
       'DESIGN.md 5/C17')
+claim('C08', 'CBMC inductive step of the real move_object from an arbitrary forest over 3 objects with havoc-to-invariant init() callbacks',
+      'Solver-decided: from any acyclic environment/inventory forest and any flags, move_object keeps the forest invariant (each object on exactly the inventory list of its environment, no cycles) after the move, at every init() callback and on the error path, with each callback replacing the graph by another arbitrary forest; a plain move puts the item into its destination.',
+      'Only move_object of C08 is covered: name table (otable), destruct_object, load/clone name bookkeeping and the efun guards are not; callbacks are havoc (not real nested calls); 3 objects.',
+      'DESIGN.md 5/C08')
